@@ -122,6 +122,12 @@ func tryFastCompare(expression string) *fastCompare {
 		return &fastCompare{field: m[1], op: m[2], numLit: n}
 	}
 	if m := fastFieldOpStr.FindStringSubmatch(expression); m != nil {
+		// A backslash starts an escape sequence that the general evaluator decodes
+		// ('a\nb' holds a newline there); the raw text is not the literal's value,
+		// so leave such literals to the general path.
+		if strings.Contains(m[3], "\\") {
+			return nil
+		}
 		return &fastCompare{field: m[1], op: m[2], strLit: m[3], isString: true}
 	}
 	return nil
